@@ -11,6 +11,7 @@ from xvlib.extract import ExtractionBreak
 
 SD = 'src/xalanc/XalanSourceTree/XalanSourceTreeDocument.cpp'
 BODY = Block(SD, r'^XalanSourceTreeDocument::~XalanSourceTreeDocument\(\)', 'file_body', end=r'\Z', hidden=True)
+CTORS = Block(SD, r'^XalanSourceTreeDocument::XalanSourceTreeDocument\(', 'ctors', end=r'^XalanSourceTreeDocument::~XalanSourceTreeDocument\(\)', hidden=True)
 TEMPLATE = r'''
 #include "xv_shim.h"
 typedef unsigned long IndexType;
@@ -57,6 +58,15 @@ def gen(fn_texts, blk_texts):
         __CPROVER_assert(theIndex == before, "site %d (%s): the node gets the counter value no earlier node got");
         __CPROVER_assert(self->m_nextIndexValue == before + 1, "site %d (%s): the counter moves on by one, AFTER the node took its value");
     }''' % (k, cm.group(1), idx[0], expr, k, cm.group(1), k, cm.group(1)))
+    # the counter's start value in each constructor, and the index the document node itself reports
+    starts = re.findall(r'\bm_nextIndexValue\((\w+)\)', blk_texts['ctors'])
+    if len(starts) < 1:
+        raise ExtractionBreak('no constructor initialiser m_nextIndexValue(...) found')
+    dm = re.search(r'XalanSourceTreeDocument::getIndex\(\) const\s*\{\s*return (\w+);\s*\}', src)
+    if not dm:
+        raise ExtractionBreak('XalanSourceTreeDocument::getIndex() is no longer "return <constant>;"')
+    for n, v in enumerate(starts):
+        out.append('    __CPROVER_assert((IndexType)(%s) > (IndexType)(%s), "constructor %d: the index counter starts above the index of the document node itself (getIndex() returns %s): the first node created does not share the document node\'s index");' % (v, dm.group(1), n + 1, dm.group(1)))
     if k < 20:
         raise ExtractionBreak('only %d node-construction sites found (expected >= 20)' % k)
     return {'sites': '\n'.join(out)}
@@ -65,12 +75,13 @@ def gen(fn_texts, blk_texts):
 UNIT = Unit(
     name='c12_stindex',
     props=['C12'],
-    blocks=[BODY],
+    blocks=[BODY, CTORS],
     functions=[],
     template=TEMPLATE,
     gen=gen,
     jobs=[Job('sites', 'h_sites', dfcc=False, reach=['entry:sites'], timeout=120, min_obligations=40)],
     mutants=[
+        Mutant('counter_starts_at_document_index', SD, r'm_nextIndexValue\(2\),', 'm_nextIndexValue(1),', count=1, expect='starts above'),
         Mutant('pi_preincrement', SD, r'(theNextSibling,\s*)m_nextIndexValue\+\+(\);\s*\}\s*inline const XalanDOMString&\s*XalanSourceTreeDocument::getTextNodeString)', r'\1++m_nextIndexValue\2', expect='counter value'),
         Mutant('comment_index_not_advanced', SD, r'(m_commentAllocator\.create\([^;]*?)m_nextIndexValue\+\+\);', r'\1m_nextIndexValue);', expect='moves on'),
     ],
